@@ -26,7 +26,7 @@ RULE = ("(A) generated definition/use programs (random DAGs over <=9 names with 
         "Model.LazyEval.lazy_run and final_run; the Gallina move_def is compared with the harness's on the same programs. "
         "(B) metamorphic on the real code: every/sampled placement move_def(p,i,j) and permute_defs of the movable top-level "
         "definitions of proggen programs (1-2 files, includes), of 'name = expr' lines of the 21 practice-corpus programs, and "
-        "two-file programs whose exporter has '.extern all' / '.extern names' / '::' / '==' and whose constants and labels are used from the other file, definitions crossing the .extern lines, exporter linked first and last; label-difference programs (.blkb/.blkw/.repeat counts and '. =' skips whose operand is a symbol chain ending in a difference of labels defined later, definitions placed anywhere), chain x use-position programs (uses in .byte .word immediates index words absolute operands .blkb .blkw .repeat counts "
+        "unused faulty definitions (undefined name, zero divisor, cycle) moved anywhere; two-file programs whose exporter has '.extern all' / '.extern names' / '::' / '==' and whose constants and labels are used from the other file, definitions crossing the .extern lines, exporter linked first and last; label-difference programs (.blkb/.blkw/.repeat counts and '. =' skips whose operand is a symbol chain ending in a difference of labels defined later, definitions placed anywhere), chain x use-position programs (uses in .byte .word immediates index words absolute operands .blkb .blkw .repeat counts "
         ".link '. =' .align trap/emt fields string codes); bytes, base, outcome class must be equal. "
         "non-trivial = a distinct (program, moved definition, target position) whose definition is referenced by the program")
 LEVEL_TEXT = ("Coq theorems on Model/LazyEval.v, for definition tables and expressions of any size: monotonicity of speculative "
@@ -163,9 +163,12 @@ def gen_dag(rng):
                 if new:
                     used |= new
                     changed = True
-    for n in names:
-        if n not in used:
-            ss.insert(rng.randrange(len(ss) + 1), ("use", ("s", n)))
+    # the judge forces every definition at the end (Model.LazyEval.close), as the code does at link time; in half of
+    # the programs the unused definitions stay unused (so an unused faulty definition must fail the build by itself)
+    if rng.random() < 0.5:
+        for n in names:
+            if n not in used:
+                ss.insert(rng.randrange(len(ss) + 1), ("use", ("s", n)))
     return kind, ss
 
 
@@ -745,6 +748,40 @@ def labeldiff_groups(rng, tier):
     return groups
 
 
+# B3e: faulty definitions nobody uses (undefined name, zero divisor, cycle): the build fails wherever they stand
+def faulty_groups(rng, tier):
+    groups = []
+    faults = {"undefined": ["a = zz + 1"], "zerodiv": ["a = 1 / b", "b = 0"], "zerodiv-chain": ["a = 7 % c", "c = b - b", "b = 3"],
+              "cycle": ["a = b + 1", "b = a - 1"], "self": ["a = a"], "ok-control": ["a = 1 / b", "b = 2"]}
+    skel = ["nop", "lab: .word 1, good", ".byte good", ".even", "nop"]
+    for fname, defs in faults.items():
+        alld = defs + ["good = 5"]
+        nslots = len(skel) + 1
+
+        def build(assign):
+            out = []
+            for k in range(nslots):
+                for sl, d in assign:
+                    if sl == k:
+                        out.append(d)
+                if k < len(skel):
+                    out.append(skel[k])
+            return "\n".join(out) + "\n"
+        base = build([(nslots - 1, d) for d in alld])
+        variants, seen = [], set()
+        for _ in range(20 if tier == "quick" else 200):
+            order = list(alld)
+            rng.shuffle(order)
+            assign = [(rng.randrange(nslots), d) for d in order]
+            t = build(assign)
+            if t in seen or t == base:
+                continue
+            seen.add(t)
+            variants.append((" | ".join(f"{d}@{sl}" for sl, d in assign), [("t.mac", t)], None))
+        groups.append({"key": f"faulty:{fname}", "base": ([("t.mac", base)], None), "variants": variants})
+    return groups
+
+
 # B4: the known finding (bare-name statement = implicit .word, looked up at walk time)
 def implicit_word_groups():
     g = []
@@ -786,6 +823,14 @@ def metamorphic(rep, rng, tier, scale=1):
     g3e = extern_groups(rng, tier)
     bad = run_pairs(rep, "extern", g3e, watchdog=8)
     report_bad(rep, "extern", bad)
+    g3f = faulty_groups(rng, tier)
+    bad = run_pairs(rep, "faulty", g3f, watchdog=8)
+    report_bad(rep, "faulty", bad)
+    for g, o in zip(g3f, impl.pmap("assemble", [((g["base"][0],), {"watchdog": 20}) for g in g3f])):
+        want = "ok" if g["key"].endswith("ok-control") else "failed"
+        if o["outcome"] != want:
+            rep.violate("faulty-unused:" + g["key"], "an unused definition that cannot be evaluated must fail the build (and a sound one must not)",
+                        {"kind": "single", "files": [list(x) for x in g["base"][0]]}, impl=describe(o))
     g3 = g3 + g3b + g3c + g3d + g3e
     g4 = implicit_word_groups()
     bad = run_pairs(rep, "implicit-word", g4)
